@@ -7620,9 +7620,10 @@ def _is_base_n(s, n):
         int(s, n)
     except ValueError:
         return False
-    # int() also accepts digit-group underscores ("1_0", "0x1_f"). The text is written out as it is, and neither the C
-    # compiler nor CMake takes such a number
-    return "_" not in s
+    # int() also accepts digit-group underscores ("1_0", "0x1_f"), surrounding whitespace and a plus sign. The text is
+    # written out as it is (for a hex value without prefix, behind "0x"), and neither the C compiler nor CMake takes
+    # "0x 1f" or "0x+0x1f"
+    return "_" not in s and s == s.strip() and not s.startswith("+")
 
 
 def _looks_like_number(s):
